@@ -488,3 +488,37 @@ def coverage_report(ctx, cov, src):
     out = os.path.join(VERIF, ".work", "coverage_%s.json" % ctx.pid)
     os.makedirs(os.path.dirname(out), exist_ok=True)
     json.dump(rep, open(out, "w"), indent=1)
+
+
+def source_fingerprint(path):
+    """Hash of the module's AST with docstrings dropped (comments and formatting do not matter)."""
+    import ast
+    try:
+        tree = ast.parse(open(path).read())
+    except Exception as e:
+        return "unparsable:%s" % type(e).__name__
+    for node in ast.walk(tree):
+        if isinstance(node, (ast.FunctionDef, ast.AsyncFunctionDef, ast.ClassDef, ast.Module)):
+            b = node.body
+            if b and isinstance(b[0], ast.Expr) and isinstance(getattr(b[0], "value", None), ast.Constant) and isinstance(b[0].value.value, str):
+                node.body = b[1:] or [ast.Pass()]
+    return hashlib.sha256(ast.dump(tree).encode()).hexdigest()[:20]
+
+
+def anchored_changes(pid, src):
+    """Anchored files of property pid whose fingerprint differs from anchors_baseline.json (empty list if no baseline)."""
+    bpath = os.path.join(VERIF, "anchors_baseline.json")
+    if not os.path.exists(bpath):
+        return [], []
+    base = json.load(open(bpath))
+    anchored = []
+    for line in open(os.path.join(VERIF, "properties.jsonl")):
+        p = json.loads(line)
+        if p["id"] == pid:
+            anchored = p["anchors"]["files"]
+    changed, other = [], []
+    for f in sorted(base):
+        path = os.path.join(src, f[len("src/"):]) if f.startswith("src/") else os.path.join(REPO, f)
+        if source_fingerprint(path) != base[f]:
+            (changed if f in anchored else other).append(f)
+    return changed, other
